@@ -260,7 +260,7 @@ HDRFITS = {'msgid': ('Message-ID', 'In-Reply-To', 'References'),
 
 def hdr_variants(triple) -> int:
     name, val, frame = triple
-    if frame == 'top' and any(val.startswith(k) and name in v for k, v in HDRFITS.items()):
+    if frame in ('top',) and any(val.startswith(k) and name in v for k, v in HDRFITS.items()):
         return len(HDRVAL[val])
     return 1
 
@@ -279,6 +279,9 @@ def concretise_hdr(triple, rng, variant: int | None = None) -> bytes:
         inner = hdr + b'\r\n--BB\r\n\r\naGVsbG8=\r\n--BB--\r\n'
     if frame == 'top':
         return inner
+    if frame == 'obscolon':
+        # obsolete but legal: white space between the field name and the colon
+        return name.encode() + rng.choice([b' ', b'\t', b'  ']) + inner[len(name):]
     if frame == 'part':
         return (b'Subject: outer\r\nContent-Type: multipart/mixed; boundary="OUT"\r\n\r\n'
                 b'--OUT\r\n' + inner + b'\r\n--OUT\r\nContent-Type: text/plain\r\n\r\nsecond\r\n--OUT--\r\n')
